@@ -26,6 +26,8 @@ type SendScript struct {
 	// echo, one more DATA packet with content for an id whose request was completed
 	// long ago (the (LateData-1 mod n)-th requested id)
 	LateData int `json:"latedata,omitempty"`
+	// NoMarker (hostile senders only): the end-of-stats marker is never sent
+	NoMarker bool `json:"nomarker,omitempty"`
 	// Serial: a single-threaded sender. It announces everything, then repeatedly
 	// reads one packet from the receiver and, if that is a request, streams the
 	// whole file before it reads again (requests wait in the transport meanwhile)
@@ -246,7 +248,7 @@ loop:
 				}
 				res.SentStats++
 			} else {
-				if !send(&types.Packet{Type: types.PACKET_STAT}) {
+				if !sc.NoMarker && !send(&types.Packet{Type: types.PACKET_STAT}) {
 					break loop
 				}
 				res.MarkerSent = true
